@@ -299,7 +299,8 @@ def run(ctx, rep):
     rep.check(c_ok, 'R4', 'replace_exec_d/copy-each', '%s:%d' % (rx.file, rx.line), 'each program copied to exec.d/<its name>', 'exec.d copy target is not <layer>/exec.d/<name>')
     # ---- R6 ----------------------------------------------------------------------------------------------
     wf, wt, wcalls = L.writer_scope_table(prog, sl)
-    rf, rt, rdetail = L.reader_scope_table(prog, sl)
+    from . import C03_helpers as H3   # the generalised reader table (helpers, collected pipelines)
+    rf, rt, rdetail = H3.reader_scope_table(prog, sl)
     for scope in sorted(set(wt) | set(rt)):
         rep.check(wt.get(scope) == rt.get(scope) and wt.get(scope) is not None, 'R6', 'reader/' + scope, '%s:%d' % (rf.file, rf.line),
                   'scope %s written and read at %s' % (scope, wt.get(scope)),
